@@ -10,6 +10,7 @@
 
    This file contains no proofs. *)
 From Coq Require Import List NArith Bool.
+From GQL Require Export Ext.ExecOrder.
 Import ListNotations.
 Open Scope N_scope.
 
@@ -24,10 +25,8 @@ Inductive beh := BOk | BPanic (v : pval).
    nil finish function, or panic *)
 Inductive sbeh := SFn (fin : beh) | SNil | SPanic (v : pval).
 Inductive hbeh := HTrue | HFalse | HPanic (v : pval).
-(* field resolvers: value, error, panic; RFatal = error of a non-null field of
-   the root selection: the error propagates to the root and ends the execution *)
-Inductive rbeh := ROk | RErr | RPanic | RFatal.
-Definition is_fatal (fb : rbeh) : bool := match fb with RFatal => true | _ => false end.
+(* field resolvers (rbeh), deferred values (tbeh) and the tree of field
+   instances of a request (node) come from Ext/ExecOrder.v *)
 
 Record ext := mkExt {
   x_name : N;                 (* Name(); may collide with another extension's *)
@@ -35,7 +34,7 @@ Record ext := mkExt {
   x_parse : sbeh;
   x_valid : sbeh;
   x_exec : sbeh;
-  x_resolve : list sbeh;      (* per executed field, in execution order; missing = well-behaved *)
+  x_resolve : list sbeh;      (* per resolver call, in execution order; missing = well-behaved *)
   x_has : hbeh;
   x_get : beh }.
 
@@ -45,7 +44,15 @@ Inductive cls :=
 | CInvalid (m : N)            (* ValidateDocument reports m+1 errors *)
 | COpErr                      (* PlanQuery fails (unknown / missing operation name) *)
 | CVarErr                     (* getVariableValues fails *)
-| CExec (fields : list rbeh). (* executes these fields in this order: field errors / success *)
+| CExec (mutation : bool) (roots : list node).
+      (* executes this tree of field instances: field errors / success *)
+
+(* the resolver calls of the request in execution order, and the number of
+   deferred values that fail when forced *)
+Definition sched (c : cls) : list step :=
+  match c with CExec mut roots => fst (run_order mut roots) | _ => [] end.
+Definition thunk_fails (c : cls) : N :=
+  match c with CExec mut roots => snd (run_order mut roots) | _ => 0 end.
 
 (* ---- observable: the event log recorded by the extensions ---- *)
 
@@ -170,29 +177,34 @@ Fixpoint add_results (xs : list (N * ext)) : M (N * list N) :=
     bind (add_results r) (fun b => ret (fst a + fst b, snd a ++ snd b)))
   end.
 
-(* ---- resolvePlannedField for the k-th executed field: returns the errors
-        appended to eCtx.Errors ---- *)
+(* ---- resolvePlannedField for the k-th resolver call: returns the errors
+        appended to eCtx.Errors.  The finish functions are given the field's
+        value / error: rout = 2 * field id + (1 if the resolver failed) ---- *)
 
-Definition resolve_field (k : N) (fb : rbeh) (xs : list (N * ext)) : M N :=
+Definition rout (st : step) : N := 2 * fst st + (if rfails (snd st) then 1 else 0).
+
+Definition resolve_field (k : N) (st : step) (xs : list (N * ext)) : M N :=
   bind (handle_start (PResolve k) xs) (fun sf =>
-    match fb with
-    | ROk => bind (run_finish (PResolve k) 0 (snd sf)) (fun e2 => ret (fst sf + e2))
-    | RErr =>   (* finish(result, err); panic(err) -> deferred recover, handleFieldError *)
-      bind (run_finish (PResolve k) 1 (snd sf)) (fun e2 => ret (fst sf + e2 + 1))
+    match snd st with
+    | ROk => bind (run_finish (PResolve k) (rout st) (snd sf)) (fun e2 => ret (fst sf + e2))
+    | RErr =>
+      (* finish(result, err); panic(err) -> deferred recover, handleFieldError
+         (which re-panics for a non-null field: the order model accounts for it) *)
+      bind (run_finish (PResolve k) (rout st) (snd sf)) (fun e2 => ret (fst sf + e2 + 1))
+    | RBad =>
+      (* finish(result, nil); completing the value fails afterwards: the
+         notification is already finished, the recover blocks must not finish
+         it again *)
+      bind (run_finish (PResolve k) (rout st) (snd sf)) (fun e2 => ret (fst sf + e2 + 1))
     | RPanic => (* deferred recover: the pending notification is finished with an error *)
-      bind (run_finish (PResolve k) 1 (snd sf)) (fun e2 => ret (fst sf + e2 + 1))
-    | RFatal => (* as RErr; handleFieldError re-panics, see exec_fields *)
-      bind (run_finish (PResolve k) 1 (snd sf)) (fun e2 => ret (fst sf + e2 + 1))
+      bind (run_finish (PResolve k) (rout st) (snd sf)) (fun e2 => ret (fst sf + e2 + 1))
     end).
 
-Fixpoint exec_fields (k : N) (fields : list rbeh) (xs : list (N * ext)) : M N :=
-  match fields with
+Fixpoint exec_fields (k : N) (steps : list step) (xs : list (N * ext)) : M N :=
+  match steps with
   | [] => ret 0
-  | fb :: r =>
-    bind (resolve_field k fb xs) (fun a =>
-    (* a non-null root field that fails unwinds executePlannedSelection: the
-       goroutine of ExecutePlan recovers, the errors collected so far are kept *)
-    if is_fatal fb then ret a else
+  | st :: r =>
+    bind (resolve_field k st xs) (fun a =>
     bind (exec_fields (k + 1) r xs) (fun b => ret (a + b)))
   end.
 
@@ -200,7 +212,9 @@ Fixpoint exec_fields (k : N) (fields : list rbeh) (xs : list (N * ext)) : M N :=
 Definition run_body (c : cls) (xs : list (N * ext)) : M N :=
   match c with
   | CVarErr => ret 1
-  | CExec fields => exec_fields 0 fields xs
+  | CExec _ _ =>
+    (* a deferred value that fails when forced is one more field error *)
+    bind (exec_fields 0 (sched c) xs) (fun a => ret (a + thunk_fails c))
   | _ => ret 0
   end.
 
